@@ -2,7 +2,7 @@
    BLS enters as the universally quantified oracles sig_len0 / msg_of / fav / vrf / agg / sign_own; the only facts
    assumed about them are the two hypotheses of the assembly theorems (completeness of aggregation, length of an
    aggregate signature). *)
-From Coq Require Import List NArith Bool Permutation.
+From Coq Require Import List NArith Bool Permutation Lia.
 From Coq Require Import Sorting.Sorted.
 From LE Require Import Cert.Bits Cert.BitsProofs Cert.AggCommit Cert.AggCommitProofs Cert.SortProofs Cert.AssembleProofs Cert.Pool Cert.PoolProofs.
 Import ListNotations.
@@ -84,15 +84,19 @@ Qed.
 Theorem C06_bits_in_range : forall b i n, length b = bits_len n -> (i < n)%nat -> exists v, read_bit b i = Some v.
 Proof. exact read_in_range. Qed.
 
+(* [key_ok]: valid BLS public keys.  FastAggregateVerify does not validate keys (an identity-point key contributes nothing
+   to the aggregate key while its weight would be counted), so the BLS law is assumed for valid keys only and params_wf
+   demands that every validator's registered key is valid; pkg/crypto/bls.go validates keys (see docs/C06.md). *)
 (* every aggregate commit assembled from a valid, duplicate-free pool is accepted; the result is never an error,
    a panic or out-of-fuel *)
 Theorem C06_assemble_accepts : forall (sigT msgT : Type) (sig_len0 : sigT -> bool) (msg_of : cert -> msgT)
-    (fav : list key -> msgT -> sigT -> bool) (vrf : key -> msgT -> sigT -> bool) (agg : list sigT -> sigT),
-  (forall ks ss m ks', Forall2 (fun k s => vrf k m s = true) ks ss -> ks <> [] -> Permutation ks ks' ->
+    (fav : list key -> msgT -> sigT -> bool) (vrf : key -> msgT -> sigT -> bool) (agg : list sigT -> sigT)
+    (key_ok : key -> Prop),
+  (forall ks ss m ks', Forall key_ok ks -> Forall2 (fun k s => vrf k m s = true) ks ss -> ks <> [] -> Permutation ks ks' ->
                        fav ks' m (agg ss) = true) ->
   (forall ss, sig_len0 (agg ss) = false) ->
   forall e g ng,
-    params_wf e -> pool_ok sigT msgT msg_of vrf e (g ++ ng) ->
+    params_wf key_ok e -> pool_ok sigT msgT msg_of vrf e (g ++ ng) ->
     match get_aggregate_commit agg e g ng with
     | GOk a => verify sig_len0 msg_of fav e a = Accept
     | GEmpty h => h = e_mhc e
@@ -129,11 +133,11 @@ Proof. exact reachable_ok. Qed.
 (* ... and therefore assembles into an accepted aggregate commit *)
 Theorem C06_reachable_assembles_accepted : forall (sigT msgT : Type) (sig_len0 : sigT -> bool) (msg_of : cert -> msgT)
     (fav : list key -> msgT -> sigT -> bool) (vrf : key -> msgT -> sigT -> bool) (agg : list sigT -> sigT)
-    (sign_own : cert -> sigT),
-  (forall ks ss m ks', Forall2 (fun k s => vrf k m s = true) ks ss -> ks <> [] -> Permutation ks ks' ->
+    (sign_own : cert -> sigT) (key_ok : key -> Prop),
+  (forall ks ss m ks', Forall key_ok ks -> Forall2 (fun k s => vrf k m s = true) ks ss -> ks <> [] -> Permutation ks ks' ->
                        fav ks' m (agg ss) = true) ->
   (forall ss, sig_len0 (agg ss) = false) ->
-  forall e p, chain_wf e -> params_wf e -> reachable sigT msgT msg_of vrf sign_own e p ->
+  forall e p, chain_wf e -> params_wf key_ok e -> reachable sigT msgT msg_of vrf sign_own e p ->
     match get_aggregate_commit agg e (gossiped p) (nongossiped p) with
     | GOk a => verify sig_len0 msg_of fav e a = Accept
     | GEmpty h => h = e_mhc e
@@ -153,11 +157,11 @@ Proof. exact reachable_chain_ok. Qed.
 
 Theorem C06_assemble_accepts_across_reorgs : forall (sigT msgT : Type) (sig_len0 : sigT -> bool) (msg_of : cert -> msgT)
     (fav : list key -> msgT -> sigT -> bool) (vrf : key -> msgT -> sigT -> bool) (agg : list sigT -> sigT)
-    (sign_own : cert -> sigT),
-  (forall ks ss m ks', Forall2 (fun k s => vrf k m s = true) ks ss -> ks <> [] -> Permutation ks ks' ->
+    (sign_own : cert -> sigT) (key_ok : key -> Prop),
+  (forall ks ss m ks', Forall key_ok ks -> Forall2 (fun k s => vrf k m s = true) ks ss -> ks <> [] -> Permutation ks ks' ->
                        fav ks' m (agg ss) = true) ->
   (forall ss, sig_len0 (agg ss) = false) ->
-  forall e p, params_wf e -> reachable_chain sigT msgT msg_of vrf sign_own e p ->
+  forall e p, params_wf key_ok e -> reachable_chain sigT msgT msg_of vrf sign_own e p ->
     match get_aggregate_commit agg e (gossiped p) (nongossiped p) with
     | GOk a => verify sig_len0 msg_of fav e a = Accept
     | GEmpty h => h = e_mhc e
@@ -165,10 +169,24 @@ Theorem C06_assemble_accepts_across_reorgs : forall (sigT msgT : Type) (sig_len0
     end.
 Proof. intros. eapply reachable_chain_assembles_accepted; eauto. Qed.
 
+(* the evaluator's instance of BLS (ideal functionality on symbolic signatures, Corr/C06.v) satisfies the two BLS
+   hypotheses of the theorems above (key_ok := not the point at infinity), so what the check evaluates IS an instance of the theorems *)
+From LE Require Import Corr.C06 Corr.C06Proofs.
+Theorem C06_evaluator_instance_satisfies_BLS_hypotheses : forall kt,
+  (forall ks ss m ks', Forall (fun k => key_valid_i k = true) ks -> Forall2 (fun k s => vrf_i kt k m s = true) ks ss -> ks <> [] ->
+                       Permutation ks ks' -> fav_i kt ks' m (agg_i ss) = true) /\
+  (forall ss, sig_len0_i (agg_i ss) = false).
+Proof. intro kt. split; [apply inst_Hfav | apply inst_Hlen]. Qed.
+
+(* the declarative oracle of the check is implied by the model: the model never accepts what the oracle forbids
+   (distinct BLS keys per parameter set, uint32 heights) *)
+Theorem C06_oracle_is_implied_by_model : forall kt e a, env_wf e ->
+  verify sig_len0_i msg_of_i (fav_i kt) e a = Accept -> verify_spec kt e a = true.
+Proof. exact model_accept_implies_spec. Qed.
+
 (* non-vacuity (ideal BLS of Corr/C06.v): two validators (keys in descending order in the parameter set), both signed the
    block at height 2, maxHeightCertified 0 < 2 <= maxHeightPrecommitted 2: the assembled commit has bitmap 3 and is accepted;
    with the second validator's bit cleared the same signature is rejected *)
-From LE Require Import Corr.C06.
 Example C06_example :
   let kt : list key := [[9]; [4]] in
   let c2 := Build_cert 12 2 30 1 1 in
@@ -177,15 +195,37 @@ Example C06_example :
   let ng := [Build_single_commit 12 2 1 (CSig [(0, c2)]) false; Build_single_commit 12 2 2 (CSig [(1, c2)]) false] in
   match get_aggregate_commit agg_i e [] ng with
   | GOk a => ac_bits a = [3] /\ verify sig_len0_i msg_of_i (fav_i kt) e a = Accept /\
-             verify sig_len0_i msg_of_i (fav_i kt) e (Build_agg_commit 2 [1] (ac_sig a)) = RejInvalid
+             verify sig_len0_i msg_of_i (fav_i kt) e (Build_agg_commit 2 [1] (ac_sig a)) = RejInvalid /\
+             (* an over-long bitmap is rejected by the model AND forbidden by the oracle *)
+             verify sig_len0_i msg_of_i (fav_i kt) e (Build_agg_commit 2 [3; 0] (ac_sig a)) = RejInvalid /\
+             verify_spec kt e (Build_agg_commit 2 [3; 0] (ac_sig a)) = false /\ verify_spec kt e a = true
   | _ => False
   end.
 Proof. vm_compute. repeat split; reflexivity. Qed.
 
+(* a history with a reorg: a commit for the block at height 2 is admitted, the block is deleted and replaced (the view
+   below height 2 is unchanged), the pool is purged: reachable_chain holds for the new view with the empty pool *)
+Example C06_reachable_chain_with_delete :
+  let c2 := Build_cert 12 2 30 1 1 in let c2' := Build_cert 13 2 31 1 1 in
+  let prm := [(1, Build_params [Build_validator 1 5 [9]; Build_validator 2 7 [4]] 12)] in
+  let base := [(0, Build_header (Build_cert 10 0 10 1 1) 0); (1, Build_header (Build_cert 11 1 20 1 1) 0)] in
+  let e := Build_env 0 0 prm (base ++ [(2, Build_header c2 0)]) in
+  let e' := Build_env 0 0 prm (base ++ [(2, Build_header c2' 0)]) in
+  let kt : list key := [[9]; [4]] in
+  let p := on_delete_block (fst (single_commit_validator msg_of_i (vrf_i kt) e (empty_pool csig)
+                                   (Some [(Build_single_commit 12 2 1 (CSig [(0, c2)]) false, true)]))) 2 in
+  reachable_chain csig cert msg_of_i (vrf_i kt) (fun c => CSig [(0, c)]) e' p /\ gossiped p ++ nongossiped p = [].
+Proof.
+  intros. split; [|vm_compute; reflexivity].
+  apply (rch_delete csig cert msg_of_i (vrf_i kt) (fun c => CSig [(0, c)]) e e' _ 2).
+  - eapply rch_step; [apply rch_start | apply ps_gossip].
+  - intros h Hh. unfold env_agrees_at. assert (h = 0 \/ h = 1) by lia. destruct H; subst; vm_compute; auto.
+Qed.
+
 (* broadcastCertificate (cleanup with the current BFT heights, selection, publish, upgrade) keeps the pool valid and
-   duplicate-free, and its cleanup keeps a commit iff its height is above the certified height recorded in the finalised
-   block and (it lies in the last 100 heights below maxHeightPrecommitted — uint32 arithmetic — or BFT parameters exist
-   at the next height) *)
+   duplicate-free — that is all the property asks of it.  C06_broadcast_cleanup_model below only DESCRIBES the model's
+   filter as the code computes it today, including the uint32 wrap of maxHeightPrecommited-100 (a liveness defect outside
+   C06: a repaired bound would be a model difference, not a violation). *)
 Theorem C06_broadcast_preserves_pool_validity : forall (sigT msgT : Type) (msg_of : cert -> msgT)
     (vrf : key -> msgT -> sigT -> bool) e tip published (p : pool sigT),
   pool_ok sigT msgT msg_of vrf e (gossiped p ++ nongossiped p) ->
@@ -193,7 +233,7 @@ Theorem C06_broadcast_preserves_pool_validity : forall (sigT msgT : Type) (msg_o
                                   nongossiped (broadcast_certificate e tip published p)).
 Proof. intros sigT msgT msg_of vrf. exact (broadcast_preserves_ok sigT msgT msg_of vrf). Qed.
 
-Theorem C06_broadcast_cleanup_spec : forall e rh h,
+Theorem C06_broadcast_cleanup_model : forall e rh h,
   cleanup_keep e rh h = true <->
   rh < h /\ ((sub32 (e_mhp e) 100 <= h /\ h < e_mhp e) \/ exist_params e (u32 (h + 1)) = true).
 Proof. exact broadcast_cleanup_spec. Qed.
